@@ -21,7 +21,7 @@ import refrun
 from session import run_session, split_by_request, project
 
 PATH = "/tmp/verif_c27.gdn"
-VALUE_KINDS = ("int", "str", "bool", "var", "paren", "bin", "list", "tuple", "ctor", "call", "mcall", "dot", "slit")
+VALUE_KINDS = ("int", "str", "bool", "var", "paren", "bin", "list", "tuple", "ctor", "call", "mcall", "dot", "slit", "dlit")
 
 
 def candidates(main):
@@ -70,7 +70,7 @@ def has_toplevel_return(main):
 def probe_offset(t):
     """An offset whose innermost expression is the rendered node t."""
     k = t["k"]
-    if k in ("int", "str", "bool", "var", "list", "tuple", "paren", "if"):
+    if k in ("int", "str", "bool", "var", "list", "tuple", "paren", "if", "dlit"):
         return t["start"]
     if k == "bin":
         return t["l"]["end"] + 1          # the operator
@@ -95,6 +95,7 @@ def render_case(prog, form):
         w.w("enum E1 { A1, B1(Int), C1 }\n")
     if prog.get("uses_struct"):
         w.w("struct P1 { x: Int, y: String }\n")
+    gen_prog.render_meths(w, prog)
     for f in prog["funs"]:
         f["line"] = w.line
         params = ", ".join(f"{p}: {t}" for p, t in zip(f["ps"], f["pt"]))
@@ -112,7 +113,7 @@ def run(tier, seed):
     ck = Check("C27", "model_checking", tier, seed)
     rnd = random.Random(seed * 271 + 27)
     n = 150 if tier == "quick" else 1500
-    progs, _ = refrun.gen_programs(seed + 127, n, 5, err_rate=0.15, features={"session_safe": True, "ext": True})
+    progs, _ = refrun.gen_programs(seed + 127, n, 5, err_rate=0.15, features={"session_safe": True, "ext": True, "ext2": "half"})
     cases = []
     for p in progs:
         if has_toplevel_return(p["main"]):
